@@ -35,5 +35,5 @@ PointLemmas == /\ Identity(pa) /\ Inverse(pa) /\ MulStep(pa) /\ OrderKills(pa) /
                /\ \A b \in 0..(N - 1) : SMul(b, G) = pa => BlindingCancels(b)   \* every blinding factor, once
 GroupLaw == ph = 1 => /\ PairLemmas
                       /\ (pb = Inf => PointLemmas)
-                      /\ (pa = Inf /\ pb = Inf => CurveOk(N) /\ PfxOk(Fp))
+                      /\ (pa = Inf /\ pb = Inf => CurveOk(N) /\ PfxOk(Fp) /\ (Iterated => TableWidthRuleAll(N)))
 =============================================================================
